@@ -57,6 +57,8 @@ Triples == {Bin(o1, Bin(o2, Bin(o3, A_, B_), C_), D_) : o1 \in Ops, o2 \in Ops, 
 \* unary / postfix / ternary / index / dot mixed with one binary operator
 Atoms == {A_, B_, IntL(3), FloatL(5, 1)}
 Unary == {Pre("-", x) : x \in {A_, IntL(3)}} \cup {Post(p, x) : p \in {"++", "--"}, x \in {A_, IntL(3)}}
+         \* prefix binds weaker than postfix, on literals as on variables
+         \cup {Pre("-", Post(p, x)) : p \in {"++", "--"}, x \in {IntL(2), FloatL(5, 1), A_}} \cup {Pre("!", Post("++", IntL(0)))}
          \cup {Pre("-", Post("++", A_)), Post("--", Pre("-", A_)), Pre("-", Pre("-", A_)), Pre("!", BoolL(TRUE)),
                Pre("!", Pre("!", BoolL(FALSE)))}
 Mixed == {Bin(o, u, B_) : o \in Ops, u \in Unary} \cup {Bin(o, B_, u) : o \in Ops, u \in Unary}
